@@ -238,6 +238,20 @@ impl Config {
     }
 }
 
+#[cfg(casbin_verif)]
+impl Config {
+    pub(crate) fn verif_entries(&self) -> Vec<(String, String, String)> {
+        let mut out: Vec<(String, String, String)> = vec![];
+        for (sec, kv) in &self.data {
+            for (k, v) in kv {
+                out.push((sec.clone(), k.clone(), v.clone()));
+            }
+        }
+        out.sort();
+        out
+    }
+}
+
 #[cfg(test)]
 mod tests {
     use super::*;
